@@ -218,3 +218,39 @@ for _p in ("C02", "C05", "C07"):
     PROPS[_p]["rule"] = PROPS[_p]["rule"] + TMO_RULE
 PROPS["C02"]["rule"] += " c02 also: a read failure inside the message that repeats 1, 2 or 3 times (scripted equivalent of an expired deadline) x backend {reads all, stops early and accepts} x {timeout, error}: closes iff the drain cannot reach the end marker."
 PROPS["C05"]["rule"] += " c05 also: a read failure inside a chunk that repeats 1, 2 or 3 times x {accepted (SMTP, LMTP, LMTP per-recipient), refused (no MAIL, bad LAST token, over the limit)} x {LAST, not LAST}: an accepted chunk survives one failure (the discard skips the rest), a refused one none."
+
+# kinds with a real clock (seeded changes C13G, C16G, C06G: regressions that need deadlines that work / reads that fail
+# mid-message and a backend that reads on)
+PROPS["C06"]["rule"] += (" c06 also: a DATA message of 2N..3N octets delivered in raw reads of k octets each followed by a read failure (time-out /"
+                         " connection error; k in {1,2,3,N/2,N-1}) and a backend that reads on after the failures (DataPlan.Retry) with buffers"
+                         " above, at and below k: stalls within the first N octets (N octets, ErrDataTooLarge, 552, next command runs), the whole"
+                         " message trickling (552 and close), a message within the limit with stalls (accepted), a backend that gives up one failure"
+                         " early; these conv cases carry (nomodel) - the server model's backend stops at the first failed read - and are judged by the"
+                         " size oracle on ALL octets the backend obtained, failed reads included, plus reply codes and forbid-eof. dr also: the same"
+                         " on the reader in isolation (limit 1..8, bodies N-1..3N+1, failures between the raw reads of the first N octets, backend"
+                         " reading on), compared with the model ReadRetry.be_read_retry and judged by the C06 oracle of CheckDr.v.")
+TRIPW_RULE = (" tripw: trips over net.Pipe (deadlines work as on a socket) with Client.CommandTimeout = 500 ms and a caller that sleeps 1.3-1.5 s"
+              " before its first Write after Data(), between two Writes, before Close, at all three places, or nowhere (control) x bodies {small,"
+              " more than textproto's 4096-octet buffer} x verdict {accept, reject} x {SMTP, LMTP} x Close once / twice x backend read sizes."
+              " Oracle: the same c16_judge (backend octets = normalise(body), envelope, Close = verdict, second Close local error, the octets that"
+              " crossed end with dot_write(body) NOOP QUIT); a failed Write counts as a local error in front of Close's result.")
+PROPS["C16"]["kinds"] = ["tripw"] + PROPS["C16"]["kinds"]
+PROPS["C16"]["rule"] += TRIPW_RULE
+
+# the case lines of this kind are long: a smaller in-Coq sample keeps coqc's parsing time down
+PROPS["C16"]["shard"] = {"tripw": 16}
+WTMO_RULE = (" wtmo: the REAL LMTP server (WriteTimeout 300 ms) on a TCP loopback listener, an LMTPSession backend that follows a script of"
+             " steps {read the message, SetStatus(addr, err), sleep 3 x WriteTimeout} - prompt (control); second / third recipient late; the whole"
+             " delivery late (sleep before / after reading); first status before the message is read and the others late one after the other;"
+             " statuses set in reverse order with the first one late; no status and a late return of nil / an error; one status and a late error -"
+             " x recipient lists {a b c, a b a (repeated address), a x b (x refused at RCPT)} x {DATA, BDAT LAST, two BDAT chunks}; the client sends"
+             " the whole conversation (LHLO .. message, NOOP, QUIT) in one write and reads until the server closes. No sleep has to fall INSIDE a"
+             " window: the delays are fixed sleeps above the time-out, writes into an empty socket buffer do not block. Oracle (CheckWtmo.v, no model):"
+             " the client received exactly one reply per accepted recipient, in RCPT order, with the text the property prescribes for the status"
+             " set for it (else LMTPData's return value), and the NOOP and QUIT behind the message were answered (exact list of reply codes).")
+PROPS["C13"]["kinds"] = ["wtmo"] + PROPS["C13"]["kinds"]
+PROPS["C13"]["rule"] += WTMO_RULE
+PROPS["C13"]["trusted_base"] = PROPS["C13"]["trusted_base"] + ["wtmo: no model; the expectations are computed by harness/genwtmo.go from the property text and judged by CheckWtmo.v on the octets the client received"]
+
+# the case lines of this kind are long (whole conversations in hex, twice): a smaller in-Coq sample
+PROPS["C13"]["shard"] = {"wtmo": 16}
